@@ -311,6 +311,35 @@ func genXf(rng *rand.Rand, kind string, count int, shard, nshards int, emit emit
 				a = 65535
 			}
 			f.addr = a
+			if len(fs) > 0 && rng.Intn(4) == 0 {
+				// an alias of an earlier field that differs from it in ONE attribute only (a result remembered under a key
+				// that leaves that attribute out would be handed to this field)
+				f = fs[rng.Intn(len(fs))]
+				f.name = fmt.Sprintf("f%d", j)
+				switch rng.Intn(5) {
+				case 0:
+					f.typ = 13
+					f.len = 1 + (f.len+rng.Intn(7))%12
+				case 1:
+					f.order = orders[rng.Intn(len(orders))]
+				case 2:
+					f.bit = (f.bit + 1 + rng.Intn(15)) % 16
+				case 3:
+					f.hi = 1 - f.hi
+				default:
+					f.typ = 1 + (f.typ+rng.Intn(12))%13
+					if f.typ == 13 && f.len == 0 {
+						f.len = 2
+					}
+				}
+				if rng.Intn(2) == 0 && f.typ == 13 {
+					// two strings at one address with different lengths
+					g := f
+					g.name = fmt.Sprintf("f%da", j)
+					g.len = 1 + (f.len+1+rng.Intn(5))%14
+					fs = append(fs, g)
+				}
+			}
 			fs = append(fs, f)
 		}
 		emit(fmt.Sprintf("xf %s %d %d %s %s", kind, rng.Intn(2), start, hx(payload), fieldsToken(fs)))
